@@ -145,23 +145,24 @@ func (b *Bundle) IsEmpty() bool {
 
 // Any returns true if any of the tokens in the Bundle match the filter.
 func (b *Bundle) Any(f Filter) bool {
-	b.m.RLock()
-	defer b.m.RUnlock()
-
 	return b.Count(f) > 0
 }
 
 // Count returns the number of tokens in the Bundle that match the filter.
 func (b *Bundle) Count(f Filter) int {
+	b.m.RLock()
+	defer b.m.RUnlock()
+
 	// avoid copying the slice if the filter is a Predicate
 	if pred, ok := f.(Predicate); ok {
-		return Reduce(b, func(count int, t Token) int {
+		count := 0
+		for _, t := range b.ts {
 			if pred(t) {
-				return count + 1
+				count++
 			}
+		}
 
-			return count
-		})
+		return count
 	}
 
 	return len(b.ts.Select(f))
@@ -203,7 +204,7 @@ func (b *Bundle) UndischargedTicketsForThirdParty(tpLocation string) [][]byte {
 	b.m.RLock()
 	defer b.m.RUnlock()
 
-	return b.UndischargedThirdPartyTickets()[tpLocation]
+	return b.ts.undischargedTicketsByLocation(b.IsPermissionToken)[tpLocation]
 }
 
 // Discharger is a callback for validating caveats extracted from a third-party
@@ -241,7 +242,7 @@ func (b *Bundle) Clone() *Bundle {
 	return &Bundle{
 		IsPermissionToken: b.IsPermissionToken,
 		m:                 new(sync.RWMutex),
-		ts:                parseToks(b.Header()),
+		ts:                parseToks(b.ts.Header()),
 	}
 }
 
